@@ -244,7 +244,16 @@ func runSequence(t *testing.T, plan Plan, gen func(w *World) Generator, mkOracle
 				w.Stats.Steps++
 				w.Stats.StepKind[st.Kind]++
 				dg.obs(w, o)
-				for _, v := range oracle.Check(w, o) {
+				vs := oracle.Check(w, o)
+				// oracles may walk maps: order the step's violations so that the
+				// trace is a function of the plan alone
+				sort.SliceStable(vs, func(i, j int) bool {
+					if vs[i].Sig() != vs[j].Sig() {
+						return vs[i].Sig() < vs[j].Sig()
+					}
+					return vs[i].Detail < vs[j].Detail
+				})
+				for _, v := range vs {
 					if !seen[v.Sig()] {
 						seen[v.Sig()] = true
 						res.Violations = append(res.Violations, v)
